@@ -19,10 +19,11 @@ Record fixes := mk_fixes {
                            (two fix commits, one flag: the C19 model has one `fixed` parameter for both) *)
   fx_dummy : bool;      (* DummyAudioFilter fills at most 10 s per message, 64-bit compare *)
   fx_pad : bool;        (* avc.ParseSps / hevc.ParseSps hand nazabits the RBSP copy with one zero byte appended (F-13) *)
-  fx_bound : bool       (* rtprtcp.IsAvcBoundary / IsHevcBoundary check the body length (C13's fix; F-45 from the publish side) *)
+  fx_bound : bool;      (* rtprtcp.IsAvcBoundary / IsHevcBoundary check the body length (C13's fix; F-45 from the publish side) *)
+  fx_addflag : bool     (* Rtmp2RtspRemuxer.remux with RtspRemuxerAddSpsPps2KeyFrameFlag: first nalu = payload[4:], guarded (F-46) *)
 }.
-Definition fixes_pinned : fixes := mk_fixes false false false false false false false false false false false false.
-Definition fixes_all : fixes := mk_fixes true true true true true true true true true true true true.
+Definition fixes_pinned : fixes := mk_fixes false false false false false false false false false false false false false.
+Definition fixes_all : fixes := mk_fixes true true true true true true true true true true true true true.
 
 Record mmsg := mk_mmsg { mm_type : N; mm_ts : N; mm_pay : bytes }.
 
